@@ -7,6 +7,8 @@ R18.1  on every path of wasmMemoryGrow with memory->shared, all reads and writes
        code that can run concurrently (the memory.size template) must be a locked or atomic access
 R18.2  for shared memories the grow path performs no realloc and no store to `data`
 R18.3  lock/unlock are balanced on every path; failed grows store nothing (see also C05 R05.3)
+R18.4  one descriptor per shared memory: the emitted InitMemories gives a child instance (NewChild, used by thread-spawn) the
+       parent's descriptor itself, never a copy - page counter, size and mutex are shared by all threads
 """
 from .. import astdb, pe, emit, oracle, templates, runtime, ctyperules as ct, memrules as mr
 from ..pe import Ptr, unk, is_sym
@@ -134,5 +136,9 @@ def run(chk):
                        '(wasmMemoryAllocate runs before publication, wasmMemoryFree after the last user)']
     check_grow(chk)
     check_size_template(chk)
+    # one descriptor per shared memory: thread instances alias the creator's descriptor (rule shared with C06 R06.4)
+    from . import c06
+    c06.check_shared_descriptor(chk, emit.translator_tus(('c.c', 'opcode.c', 'instruction.c'), chk=chk), 'R18.4')
+    chk.floor('R18.4', 3)
     chk.floor('R18.1', 5)
     chk.floor('R18.3', 3)
